@@ -3166,3 +3166,92 @@ func runSetEqualsWhollyKnown(rr *RuleRun) {
 		rr.Info("cty.Value.Equals/set", fd.Pos(), "the set branch of Equals records no difference by assignment")
 	}
 }
+
+// ---------------------------------------------------------------------------
+// C17.refined-length-bounded
+
+func init() {
+	register(&Rule{
+		ID: "C17.refined-length-bounded", Prop: "C17", Floor: 2, Controls: 0,
+		Doc: "an integer read from MessagePack input (DecodeInt and its siblings) becomes a collection-length bound of a refinement (CollectionLengthLowerBound / UpperBound / CollectionLength) only after it was compared with a constant limit: when both bounds are equal RefinementBuilder.NewValue materialises a known list with that many (unknown) elements, so an unbounded length lets a few bytes of input demand an arbitrarily large allocation",
+		Run: runRefinedLengthBounded,
+	})
+}
+
+func runRefinedLengthBounded(rr *RuleRun) {
+	c := rr.Ctx
+	pkg := "cty/msgpack"
+	eachFuncBody(c, []string{pkg}, func(pkg string, fd *ast.FuncDecl, body *ast.BlockStmt) {
+		info := c.Info(pkg)
+		// integers decoded from the input
+		decoded := map[types.Object]string{}
+		inspectNoLit(body, func(n ast.Node) bool {
+			as, ok := n.(*ast.AssignStmt)
+			if !ok || len(as.Rhs) != 1 || len(as.Lhs) < 1 {
+				return true
+			}
+			call, ok := ast.Unparen(as.Rhs[0]).(*ast.CallExpr)
+			if !ok {
+				return true
+			}
+			f := callee(info, call)
+			if f == nil || f.Pkg() == nil || !strings.Contains(f.Pkg().Path(), "vmihailenco/msgpack") || !strings.HasPrefix(f.Name(), "Decode") {
+				return true
+			}
+			if o := objOf(info, as.Lhs[0]); o != nil {
+				if b, ok := o.Type().Underlying().(*types.Basic); ok && b.Info()&types.IsInteger != 0 {
+					decoded[o] = f.Name()
+				}
+			}
+			return true
+		})
+		if len(decoded) == 0 {
+			return
+		}
+		var cf *CondFacts
+		inspectNoLit(body, func(n ast.Node) bool {
+			call, ok := n.(*ast.CallExpr)
+			if !ok || !isCall(info, call, "cty.RefinementBuilder.CollectionLengthLowerBound", "cty.RefinementBuilder.CollectionLengthUpperBound", "cty.RefinementBuilder.CollectionLength") || len(call.Args) != 1 {
+				return true
+			}
+			var src types.Object
+			ast.Inspect(call.Args[0], func(m ast.Node) bool {
+				if id, ok := m.(*ast.Ident); ok {
+					if _, isDec := decoded[info.Uses[id]]; isDec {
+						src = info.Uses[id]
+					}
+				}
+				return true
+			})
+			if src == nil {
+				return true
+			}
+			if cf == nil {
+				cf = c.CondFacts(body, info, nil)
+			}
+			key := fmt.Sprintf("%s.%s/%s←%s", pkg, declName(fd), call.Fun.(*ast.SelectorExpr).Sel.Name, decoded[src])
+			bounded := cf.HoldsAt(call, func(cond ast.Expr, truth bool) bool {
+				be, ok := ast.Unparen(cond).(*ast.BinaryExpr)
+				if !ok {
+					return false
+				}
+				// src <= K / src < K true, or src > K / src >= K false (either operand order)
+				isSrc := func(e ast.Expr) bool { return objOf(info, e) == src }
+				isK := func(e ast.Expr) bool { _, ok := constInt(info, e); return ok }
+				switch {
+				case isSrc(be.X) && isK(be.Y):
+					return (truth && (be.Op == token.LEQ || be.Op == token.LSS)) || (!truth && (be.Op == token.GTR || be.Op == token.GEQ))
+				case isK(be.X) && isSrc(be.Y):
+					return (truth && (be.Op == token.GEQ || be.Op == token.GTR)) || (!truth && (be.Op == token.LSS || be.Op == token.LEQ))
+				}
+				return false
+			})
+			if bounded {
+				rr.OK(key, call.Pos(), "the decoded length was compared with a constant limit on every path to this call")
+			} else {
+				rr.Violation(key, call.Pos(), fmt.Sprintf("%s, read from the input by %s, becomes a length bound of the refinement without having been compared with any limit: with equal lower and upper bounds NewValue builds a known list of that many elements, so an input of a few bytes demands an allocation of arbitrary size", src.Name(), decoded[src]))
+			}
+			return true
+		})
+	})
+}
